@@ -35,7 +35,7 @@ CLAIMED = {
              note="Trusted: Coq kernel + vm; goextract translator; Go runtime timers/clock (hypothesis runtime_timer_ok); 100us clock-reading tolerance in the real-run check. No axioms."),
 }
 
-SKEL_NOTE = "Trusted: Coq kernel + vm_compute (reflection: the reachable set, ~46k control states, and the rank table are certificates accepted only by kernel-checked closure/rank checks); goextract (channel-operation / call-order / dispatch inventories regenerated from /repo every run); the skeleton Model/Skel.v is a hand-written mirror of tea.go/tty.go/standard_renderer.go control flow whose guards are COMPUTED from those inventories; Go harness (real Programs, pause points, watchdog). Assumed: Go select/channel semantics, an enabled runtime thread eventually runs, callbacks in progress return. Outside: Kill racing the first lines of Run, unrecovered panics, job-control suspend. No axioms."
+SKEL_NOTE = "Trusted: Coq kernel + vm_compute (reflection: the reachable set, ~72k control states, and the rank table are certificates accepted only by kernel-checked closure/rank checks); goextract (channel-operation / call-order / dispatch inventories regenerated from /repo every run); the skeleton Model/Skel.v is a hand-written mirror of tea.go/tty.go/standard_renderer.go control flow whose guards are COMPUTED from those inventories; Go harness (real Programs, pause points, watchdog). Assumed: Go select/channel semantics, an enabled runtime thread eventually runs, callbacks in progress return. Outside: Kill racing the first lines of Run, unrecovered panics, job-control suspend. No axioms."
 CLAIMED.update({
  "C04": dict(design="5.3/C04", technique="Coq proof by kernel-checked inductive-invariant closure + rank certificate over the control skeleton (guards computed from the regenerated channel-operation inventory); real Programs driven through the cause x point x pending-work matrix under a watchdog, outcome Spec evaluated in Coq",
              text="C04_bounded / C04_no_dead_end / C04_struck_stable: in every state reachable under any schedule and environment, once a cause has struck every path of runtime steps and callback returns is bounded by a kernel-checked rank (<= 60, plus 2 per further command of a batch in dispatch) and can only stop where Run has returned; C04_error_ok: the error class at return is the one the exit decision demands. Guards come from the source on every run (an unguarded channel operation breaks the closure proof and the model-level search prints the shortest deadlock path). Real runs: every cause (quit msg, Quit(), interrupt, Kill, ctx, read error, panic in callback / command, SIGINT, SIGTERM) x point (idle, in Init/Update/View/filter, batch dispatch, command hand-off, inside exec) x pending work; two-cause races; EOF alone. F1, F8, F9 were found and repaired.",
